@@ -28,11 +28,14 @@ RULE += (
 RULE += (
     " Also: byte strings whose intermediate remainder is steered to special values (zero, single bits, 0x010000, all ones) before zero / 0xFF / arbitrary bytes."
 )
+RULE += (
+    " Also: the static parser called with positional arguments in the documented order."
+)
 ASSUMPTIONS = [
     "GF(2) long-division reference and table-driven reference agree on every input (checked at run time)",
     "frame length << 2^23-1 bits, so every 2-bit error is detectable; (x+1) | G so every odd-weight error is",
 ]
-GATES = ["special_intermediate_remainders", "crc_compared", "append_zero_checked", "single_bit_checked", "double_bit_checked", "odd_checked",
+GATES = ["positional_arguments_checked", "special_intermediate_remainders", "crc_compared", "append_zero_checked", "single_bit_checked", "double_bit_checked", "odd_checked",
          "burst_checked", "validate0_checked", "lengths_enumerated",
          "syndrome_targeted_bursts", "nested_frames", "intact_parsed_first", "flag_values_checked", "validate0_then_1_checked", "inplace_sequences"]
 
@@ -95,6 +98,18 @@ def damaged_case(ctx, frame, positions, cls):
         ctx.violation("damage-wrong-error", f"{cls} error at bits {list(positions)[:8]} of a {len(frame)}-byte frame: "
                       f"{type(e).__name__} instead of RTCMParseError: {str(e)[:100]}", params)
         return False
+    if (len(frame) + sum(positions)) % 5 == 1:
+        # the documented positional order parse(message, validate, labelmsm)
+        for args in ((1,), (1, 2), (True, 1)):
+            try:
+                RTCMReader.parse(bad, *args)
+                ctx.violation("damage-accepted", f"{cls} error at bits {list(positions)[:8]} of a {len(frame)}-byte frame "
+                              f"was accepted by RTCMReader.parse(frame, {', '.join(map(repr, args))}) (validation on, "
+                              f"arguments given by position)", dict(params, positional=list(map(int, args))))
+                return False
+            except Exception:
+                pass
+        ctx.hit("positional_arguments_checked")
     if (len(frame) + sum(positions)) % 8 == 0:
         # second route to the same parser: a non-validating reader sees the damaged bytes first, then a validating
         # reader (raise mode) over the same bytes must still refuse them
@@ -160,7 +175,7 @@ def validate0_case(ctx, frame, newcrc):
 
     def outcome(buf):
         try:
-            m = RTCMReader.parse(buf, validate=0)
+            m = RTCMReader.parse(buf, 0, 2 - (frame[-1] & 1)) if frame[-2] & 1 else RTCMReader.parse(buf, validate=0)
             return ("ok", m.identity, m.payload, refmodel.public_attrs(m), m.serialize(), str(m), repr(m))
         except libs as e:
             return ("err", type(e).__name__)
